@@ -27,10 +27,13 @@ Nets == {"off", "unreachable", "honest", "serverError", "tampered", "tcbFails", 
 \*   xFails: only that one download gets an HTTP 503, the others are served honestly (the CRL ones need revocation checking on)
 \*   off: collateral not requested;  unreachable: requested, nothing answers;  honest / serverError (HTTP 503) / tampered (bad signature)
 Crl == {"off", "on", "onWithoutCollateral"}
+Presents == {"plain", "quiet", "verbose", "stdin"}
+\*   how the run is presented: -quiet (nothing is written to stdout or stderr), -verbosity=2, or the quote on standard input (-in=-);
+\*   none of them takes part in the exit code
 
-Case == [field : Fields, cfg : Vals, flag : Vals, shape : Shapes, fmt : Formats, quote : Quotes, inform : Informs, roots : Roots, net : Nets, crl : Crl]
+Case == [field : Fields, cfg : Vals, flag : Vals, shape : Shapes, fmt : Formats, quote : Quotes, inform : Informs, roots : Roots, net : Nets, crl : Crl, present : Presents]
 Base == [field |-> "mr_td", cfg |-> "absent", flag |-> "absent", shape |-> "full", fmt |-> "textproto", quote |-> "valid", inform |-> "bin",
-         roots |-> "flagGood", net |-> "off", crl |-> "off"]
+         roots |-> "flagGood", net |-> "off", crl |-> "off", present |-> "plain"]
 
 \* which values a shape lets the config carry
 CfgEffective(c) == IF c.shape \in {"none", "emptyFile", "policyEmpty", "noPolicy"} THEN "absent" ELSE c.cfg
@@ -84,6 +87,10 @@ OtherDevs == {[Base EXCEPT !.shape = x] : x \in Shapes} \cup {[Base EXCEPT !.fmt
              \cup {[Base EXCEPT !.inform = x] : x \in Informs} \cup {[Base EXCEPT !.roots = x] : x \in Roots}
              \cup {[Base EXCEPT !.net = x] : x \in Nets} \cup {[Base EXCEPT !.net = x, !.crl = "on"] : x \in {"pckCrlFails", "rootCrlFails", "tcbFails"}} \cup {[Base EXCEPT !.crl = x, !.net = (IF x = "on" THEN "honest" ELSE "off")] : x \in Crl}
              \cup {[Base EXCEPT !.quote = q, !.inform = i] : q \in Quotes, i \in {"bin", "proto", "textproto"}}
+             \cup {[Base EXCEPT !.present = x] : x \in Presents}
+             \cup {[Base EXCEPT !.present = x, !.quote = q] : x \in Presents, q \in {"forged", "unparsable"}}      \* one failure of every exit class, however presented
+             \cup {[Base EXCEPT !.present = x, !.net = "unreachable"] : x \in Presents}
+             \cup {[Base EXCEPT !.present = x, !.flag = v] : x \in Presents, v \in {"mismatch", "malformed"}}
 Merge2(a, b) == [k \in DOMAIN Base |-> IF b[k] # Base[k] THEN b[k] ELSE a[k]]
 Cases == FieldDevs \cup OtherDevs \cup (IF Budget >= 2 THEN {Merge2(a, b) : a \in {x \in FieldDevs : x.cfg # "absent" \/ x.flag # "absent"}, b \in OtherDevs} ELSE {})
 \* combinations that cannot be realised
